@@ -19,6 +19,7 @@ import (
 	"encoding/json"
 	"fmt"
 	"math"
+	"slices"
 	"strconv"
 	"strings"
 	"sync"
@@ -102,6 +103,18 @@ func (d *Datastore) Get(ctx context.Context, req *sdcpb.GetDataRequest, nCh chan
 	return nil
 }
 
+// atOrBelowRequested reports whether the stored path lies at or below one of the requested paths, element by element.
+// The cache matches a requested path as a prefix of the stored keys and reads key values as patterns: it also returns
+// the entries whose name merely starts with a requested one.
+func atOrBelowRequested(requested [][]string, stored []string) bool {
+	for _, r := range requested {
+		if len(r) <= len(stored) && slices.Equal(r, stored[:len(r)]) {
+			return true
+		}
+	}
+	return false
+}
+
 func (d *Datastore) handleGetDataUpdatesSTRING(ctx context.Context, name string, req *sdcpb.GetDataRequest, paths [][]string, out chan *sdcpb.GetDataResponse) error {
 NEXT_STORE:
 	for _, store := range getStores(req) {
@@ -120,7 +133,7 @@ NEXT_STORE:
 				if !ok {
 					continue NEXT_STORE
 				}
-				if len(upd.GetPath()) == 0 {
+				if len(upd.GetPath()) == 0 || !atOrBelowRequested(paths, upd.GetPath()) {
 					continue
 				}
 				scp, err := d.schemaClient.ToPath(ctx, upd.GetPath())
@@ -188,7 +201,7 @@ func (d *Datastore) handleGetDataUpdatesJSON(ctx context.Context, name string, r
 					break OUTER
 				}
 
-				if len(upd.GetPath()) == 0 {
+				if len(upd.GetPath()) == 0 || !atOrBelowRequested(paths, upd.GetPath()) {
 					continue
 				}
 
@@ -267,7 +280,7 @@ NEXT_STORE:
 					continue NEXT_STORE
 				}
 
-				if len(upd.GetPath()) == 0 {
+				if len(upd.GetPath()) == 0 || !atOrBelowRequested(paths, upd.GetPath()) {
 					continue
 				}
 				scp, err := d.schemaClient.ToPath(ctx, upd.GetPath())
